@@ -114,7 +114,13 @@ impl Writer {
         match self.fsync_schedule {
             FsyncSchedule::SyncEach => {
                 // Immediate mmap flush, skip background flusher
-                block.mmap.flush()?;
+                if let Err(e) = block.mmap.flush() {
+                    // The append is reported as failed, so it must not stay readable: take the entry
+                    // back (both writer mutexes are still held, no reader has seen the new offset).
+                    *cur -= need;
+                    let _ = block.zero_range(*cur, PREFIX_META_SIZE as u64);
+                    return Err(e);
+                }
                 debug_print!(
                     "[writer] immediate fsync: col={}, block_id={}",
                     self.col,
